@@ -88,6 +88,97 @@ func vxC19One(rep *mc.Report, site string, c vcmd.Case, guard time.Duration) {
 	vcmd.Judge(rep, call, c, timeout, tm, o)
 }
 
+// vxC19Concurrent: the users of one CmdFan run on their own goroutines (control loop, RPM monitor, statistics,
+// REST api). Three of them are inside GetRpm with the getRpm command of case c; a fourth one then makes the probe
+// call (its own command is the benign one, or none at all for the in-memory accessors). Every one of the four
+// calls is judged on its own clock: back within 2 s + margin, whatever the others are doing.
+var vxC19Probes = []string{"GetRpm", "GetPwm", "SetPwm", "GetRpmAvg", "SetRpmAvg"}
+
+func vxC19Concurrent(rep *mc.Report, probe string, c vcmd.Case, ok vcmd.Case, guard time.Duration) {
+	const timeout = 2 * time.Second
+	fan, err := NewFan(configuration.FanConfig{
+		ID:    "vxcmd",
+		Curve: "c",
+		Cmd: &configuration.CmdFanConfig{
+			GetPwm: &configuration.ExecConfig{Exec: ok.Path, Args: []string{}},
+			GetRpm: &configuration.ExecConfig{Exec: c.Path, Args: []string{}},
+			SetPwm: &configuration.ExecConfig{Exec: ok.Path, Args: []string{"%pwm%"}},
+		},
+	})
+	if err != nil {
+		panic(err)
+	}
+	var wg sync.WaitGroup
+	for k := 0; k < 3; k++ {
+		wg.Add(1)
+		go func(k int) {
+			defer wg.Done()
+			call := vcmd.Call{Site: fmt.Sprintf("concurrent:%s:blocker%d", probe, k), Case: c.Name, TimeoutMs: 2000, Test: vxC19Test}
+			var o vcmd.Outcome
+			var mu sync.Mutex
+			tm := vcmd.Guarded(guard, func() {
+				_, err := fan.GetRpm()
+				mu.Lock()
+				defer mu.Unlock()
+				if err != nil {
+					o = vcmd.Outcome{Err: err.Error()}
+				} else {
+					o = vcmd.Outcome{Ok: true}
+				}
+			})
+			mu.Lock()
+			oo := o
+			mu.Unlock()
+			vcmd.Judge(rep, call, c, timeout, tm, oo)
+		}(k)
+		time.Sleep(40 * time.Millisecond)
+	}
+	time.Sleep(150 * time.Millisecond)
+	call := vcmd.Call{Site: "concurrent:" + probe, Case: c.Name, TimeoutMs: 2000, Test: vxC19Test}
+	pc := ok
+	var o vcmd.Outcome
+	var mu sync.Mutex
+	tm := vcmd.Guarded(guard, func() {
+		var err error
+		switch probe {
+		case "GetRpm":
+			pc = c
+			_, err = fan.GetRpm()
+		case "GetPwm":
+			_, err = fan.GetPwm()
+		case "SetPwm":
+			err = fan.SetPwm(100)
+		case "GetRpmAvg":
+			_ = fan.GetRpmAvg()
+		case "SetRpmAvg":
+			fan.SetRpmAvg(1000)
+		}
+		mu.Lock()
+		defer mu.Unlock()
+		if err != nil {
+			o = vcmd.Outcome{Err: err.Error()}
+		} else {
+			o = vcmd.Outcome{Ok: true}
+		}
+	})
+	mu.Lock()
+	oo := o
+	mu.Unlock()
+	if !tm.Returned || tm.Elapsed > timeout+vcmd.Margin {
+		rep.Count("late-behind-other-callers", 1)
+		what := fmt.Sprintf("returned only after %v", tm.Elapsed.Round(10*time.Millisecond))
+		if !tm.Returned {
+			what = fmt.Sprintf("still blocked after the %v guard", tm.Elapsed.Round(time.Second))
+		}
+		rep.Violate(mc.Violation{Signature: "C19 call on a cmd fan waits for the commands of other concurrent callers",
+			Detail: fmt.Sprintf("CmdFan.%s (own command: %q) called while three other goroutines are inside CmdFan.GetRpm with getRpm = case %s (%q): %s; bound: 2 s + %v",
+				probe, vxC19Clip(pc.Script), c.Name, vxC19Clip(c.Script), what, vcmd.Margin), Replay: call})
+	} else {
+		vcmd.Judge(rep, call, pc, timeout, tm, oo)
+	}
+	wg.Wait()
+}
+
 func vxC19Clip(s string) string {
 	if len(s) > 60 {
 		return s[:60] + "..."
@@ -115,6 +206,11 @@ func TestVX_C19fans(t *testing.T) {
 			return
 		}
 		rep.Evaluations = 1
+		if strings.HasPrefix(rc.Site, "concurrent:") {
+			okc, _ := vcmd.FindCase(cases, "ok")
+			vxC19Concurrent(rep, strings.Split(rc.Site, ":")[1], c, okc, guard)
+			return
+		}
 		vxC19One(rep, rc.Site, c, guard)
 		return
 	}
@@ -131,10 +227,27 @@ func TestVX_C19fans(t *testing.T) {
 			jobs = append(jobs, func() { vxC19One(rep, site, c, guard) })
 		}
 	}
+	okc, _ := vcmd.FindCase(cases, "ok")
+	for _, c := range cases {
+		switch c.Name {
+		case "ok", "exit1-no-output", "sleep-exec-beyond-deadline", "sleep-child-beyond-deadline", "grandchild-holds-stdout", "grandchild-and-sleeping-parent", "missing-interpreter":
+		default:
+			continue
+		}
+		for _, probe := range vxC19Probes {
+			i++
+			if !mc.Mine(i) {
+				continue
+			}
+			c, probe := c, probe
+			jobs = append(jobs, func() { vxC19Concurrent(rep, probe, c, okc, guard) })
+		}
+	}
 	vcmd.RunAll(jobs, 15*time.Millisecond)
 	rep.Evaluations = int64(len(jobs))
 	rep.AddDistinct(int64(len(jobs)))
 	rep.Configs = int64(len(cases))
 	rep.Sample(map[string]any{"site": "fans.CmdFan.GetPwm", "case": "output-non-numeric", "script": "#!/bin/sh\necho 'hello world'", "timeout_s": 2})
+	rep.Note("concurrent callers: 3 goroutines inside CmdFan.GetRpm (7 getRpm failure modes) while a 4th calls GetRpm/GetPwm/SetPwm/GetRpmAvg/SetRpmAvg on the same fan; each call judged on its own clock")
 	rep.Note("call sites: " + strings.Join(vxC19Sites, ", ") + " (timeout fixed at 2 s by fan2go)")
 }
